@@ -124,10 +124,16 @@ for k in (1, 2, 4):
             if calls[0] in at:
                 mi = ss.TDS.config.max_iter
                 ss.TDS.config.max_iter = 1       # two Newton iterations: the right-hand sides have been re-evaluated at an iterate
+                # ... and the attempt DIVERGES: the linear solver's answer is scaled, the iterate flies away from the solution
+                sv = ss.TDS.solver
+                so, lo = sv.solve, sv.linsolve
+                sv.solve = lambda A, b: -25.0 * so(A, b)
+                sv.linsolve = lambda A, b: -25.0 * lo(A, b)
                 try:
                     okk = orig()
                 finally:
                     ss.TDS.config.max_iter = mi
+                    sv.solve, sv.linsolve = so, lo
                 if not okk:
                     rejected[0] += 1
                 return okk
